@@ -284,10 +284,10 @@ Proof.
     + rewrite IH; [reflexivity | tauto].
 Qed.
 
-Lemma recode_gen : forall todo done,
+Lemma recode_gen fg : forall todo done,
   NoDup (map fst done ++ map fst todo) -> labels_inv todo ->
   (forall k, In k (map fst todo) -> mem_str k label_fields = true) ->
-  set_fields true (done ++ blank todo) (labels_encode todo) = (done ++ todo, None).
+  set_fields fg (done ++ blank todo) (labels_encode todo) = (done ++ todo, None).
 Proof.
   induction todo as [|[k ov] todo IH]; intros done Hnd Hi Hk.
   - simpl. rewrite app_nil_r. reflexivity.
@@ -302,9 +302,9 @@ Proof.
       change (blank ((k, Some v) :: todo)) with ((k, @None lval) :: blank todo).
       cbn [set_fields].
       assert (Hkf : mem_str k label_fields = true) by (apply Hk; left; reflexivity).
-      pose proof (proj2 (accept_iff_domain true (done ++ (k, None) :: blank todo) k v Hkf Hs) Hd) as Hacc.
-      pose proof (accepted_is_stored true (done ++ (k, None) :: blank todo) k v Hkf Hacc) as Hst.
-      destruct (set_one true (done ++ (k, None) :: blank todo) (k, v)) as [st' oe]. cbn [fst snd] in *. subst oe st'.
+      pose proof (proj2 (accept_iff_domain fg (done ++ (k, None) :: blank todo) k v Hkf Hs) Hd) as Hacc.
+      pose proof (accepted_is_stored fg (done ++ (k, None) :: blank todo) k v Hkf Hacc) as Hst.
+      destruct (set_one fg (done ++ (k, None) :: blank todo) (k, v)) as [st' oe]. cbn [fst snd] in *. subst oe st'.
       rewrite lset_app_notin.
       * specialize (IH (done ++ [(k, Some v)]) Hnd' Hi' Hk'). rewrite <- !app_assoc in IH. exact IH.
       * intro Hin. apply NoDup_remove_2 in Hnd. apply Hnd. apply in_or_app. left; exact Hin.
@@ -352,7 +352,7 @@ Proof.
   intros Hi Hw. unfold labels_recode, labels_from_dict. rewrite (from_json_keys_encode st Hw).
   assert (Hb : labels_init = [] ++ blank st).
   { unfold labels_init, blank. rewrite <- Hw, map_map. reflexivity. }
-  rewrite Hb, recode_gen; [reflexivity | | exact Hi |].
+  rewrite Hb, (recode_gen true); [reflexivity | | exact Hi |].
   - simpl. rewrite Hw. apply label_fields_nodup.
   - intros k Hk. rewrite Hw in Hk. apply mem_str_In; exact Hk.
 Qed.
